@@ -181,6 +181,24 @@ def dump_model(model, values=True):
             'ranges': ranges}
 
 
+def _object_state(v):
+    """Everything a constant that is an object (not a plain number, text or
+    boolean) carries besides its canonical value: an evaluation that mutates
+    the object held by a constant cell changes that cell."""
+    try:
+        if isinstance(v, (xlerrors.ExcelError, ft.ExcelType)):
+            d = getattr(v, '__dict__', None) or {}
+            return [type(v).__name__,
+                    repr(getattr(v, 'args', None))[:200],
+                    sorted((str(k), repr(x)[:200]) for k, x in d.items())]
+    except BaseException as e:      # noqa
+        if isinstance(e, (SimInterrupt, SimBudget, SimCrash,
+                          KeyboardInterrupt)):
+            raise
+        return ['state failed', type(e).__name__]
+    return None
+
+
 def immutable_part(model):
     """What evaluation must never change: constants, formula texts, names,
     the set of cells."""
@@ -189,6 +207,10 @@ def immutable_part(model):
         for addr, ent in d['cells'].items():
             if ent.get('f') is not None:
                 ent.pop('v', None)      # formula results are written back
+            else:
+                st = _object_state(model.cells[addr].value)
+                if st is not None:
+                    ent['state'] = st
     return {'cells': d['cells'], 'names': d['names'],
             'formulae': d['formulae']}
 
